@@ -49,15 +49,21 @@ def __array_ufunc__(self, ufunc, method, *args, out=None, **kwargs):
                 result = result[0]
             if isinstance(result, type(self)):
                 result = result.view(np.ndarray)
+            a1, a2 = m1.view(np.ndarray), m2.view(np.ndarray)
+            if out is not None:
+                if result.shape != shape:
+                    raise ValueError(f"Output array has shape {result.shape}; it should be {shape}")
+                a1, a2 = a1.copy(), a2.copy()  # `out` may be one of the operands
+                result[...] = 0.0
             i_s1 = LM_total_size(ell_min, m1.ell_min-1)
             i_s2 = i_s1+LM_total_size(m1.ell_min, m1.ell_max)
             i_o1 = LM_total_size(ell_min, m2.ell_min-1)
             i_o2 = i_o1+LM_total_size(m2.ell_min, m2.ell_max)
-            result[..., i_s1:i_s2] = m1.view(np.ndarray)
+            result[..., i_s1:i_s2] = a1
             if ufunc is np.subtract:
-                result[..., i_o1:i_o2] -= m2.view(np.ndarray)
+                result[..., i_o1:i_o2] -= a2
             else:
-                result[..., i_o1:i_o2] += m2.view(np.ndarray)
+                result[..., i_o1:i_o2] += a2
             metadata = copy.copy(self._metadata)
             metadata['spin_weight'] = s
             metadata['ell_min'] = ell_min
